@@ -1496,6 +1496,10 @@ func hhDeepErrGuard(f *engine.Fn, d engine.DeepSite, target *engine.Site) (bool,
 					if v := info.ObjectOf(id).(*types.Var); v.Parent() == v.Pkg().Scope() {
 						continue // package-level error value
 					}
+					// another error known to be non-nil here (`if err := g(); err != nil { return err }`)
+					if k, nn := hhKnowsNil(info, hhFactsD(h, rs, 0), info.ObjectOf(id)); k && nn {
+						continue
+					}
 					return false, "helper " + h.Name + " returns an unrelated error variable"
 				}
 			}
